@@ -89,8 +89,13 @@ class code1:
         # a: alpha variation
         # h: histogram affected by modifier
         # b: bin of histogram
+        # |alpha| written as a selection, so that automatic differentiation at
+        # alpha = 0 gives the one-sided derivative of the branch in use there
+        # (the "down" base) and not the zero sub-derivative of abs
         exponents = tensorlib.einsum(
-            'sa,shb->shab', tensorlib.abs(alphasets), self.broadcast_helper
+            'sa,shb->shab',
+            tensorlib.where(alphasets > 0, alphasets, -alphasets),
+            self.broadcast_helper,
         )
         masks = tensorlib.astensor(
             tensorlib.einsum(
